@@ -491,6 +491,35 @@ def edge_guards(b):
         elif e[0] in ("call", "proj", "arg", "place", "upvar"):
             out.append((nz, ("true", e, None)))
             out.append((z, ("false", e, None)))
+    # `match a.cmp(&b) { Less => .., Equal => .., Greater => .. }`: each arm is a comparison fact
+    for bb in sorted(b.live_blocks()):
+        t = b.term(bb)
+        if t["k"] != "switch":
+            continue
+        e = expr_of(b, t["o"], max_depth=10)
+        if e[0] != "disc":
+            continue
+        v = strip_casts(e[1])
+        if not (v[0] == "call" and re.search(r"cmp::Ord::cmp$|Ord::cmp$", v[1]) and len(v[2]) == 2):
+            continue
+        a_, b_ = strip_casts(v[2][0]), strip_casts(v[2][1])
+        names = {255: "Lt", -1: "Lt", 0: "Eq", 1: "Gt"}
+        listed = {}
+        for val, tgt in t["ts"]:
+            listed.setdefault(names.get(int(val)), tgt)
+        for op, tgt in listed.items():
+            if op:
+                out.append((tgt, (op, a_, b_)))
+        rest = [op for op in ("Lt", "Eq", "Gt") if op not in listed]
+        if t.get("else") is not None and b.term(t["else"])["k"] != "unreachable":
+            if len(rest) == 1:
+                out.append((t["else"], (rest[0], a_, b_)))
+            elif sorted(rest) == ["Eq", "Gt"]:
+                out.append((t["else"], ("Ge", a_, b_)))
+            elif sorted(rest) == ["Eq", "Lt"]:
+                out.append((t["else"], ("Le", a_, b_)))
+            elif sorted(rest) == ["Gt", "Lt"]:
+                out.append((t["else"], ("Ne", a_, b_)))
     return out
 
 
